@@ -146,6 +146,9 @@ func gen(r0 *vh.Rand) string {
 		if v6lit && r.Chance(1, 2) {
 			h = r.Pick("[::1]", "[2001:db8::1]", "[::1]:80", "[", "[::1", "[a.com]")
 		}
+		if r.Chance(1, 12) {
+			h = oddHosts[r.Intn(len(oddHosts))]
+		}
 		if seen[normKey(h)] && !r.Chance(1, 20) {
 			continue
 		}
@@ -161,7 +164,15 @@ func gen(r0 *vh.Rand) string {
 		seen[normKey(h)] = true
 		pool = append(pool, h)
 		ti := r.Intn(4)
-		es = append(es, entry{h, "t" + string(rune('0'+ti)), "p" + string(rune('0'+ti%3))})
+		e := entry{h, "t" + string(rune('0'+ti)), "p" + string(rune('0'+ti%3))}
+		if r.Chance(1, 10) { // odd names; the tag still determines the product
+			k := r.Intn(len(oddNames))
+			e.tag, e.product = "T"+oddNames[k], oddNames[(k+3)%len(oddNames)]
+			if r.Chance(1, 4) {
+				e.tag = oddNames[k]
+			}
+		}
+		es = append(es, e)
 	}
 	// VIP table: product -> address texts
 	var vs []string
@@ -203,6 +214,15 @@ func gen(r0 *vh.Rand) string {
 			h += ":80"
 		}
 	}
+	if r.Chance(1, 12) {
+		h = oddHosts[r.Intn(len(oddHosts))]
+		if len(pool) > 0 && r.Bool() { // below / equal to a configured odd name
+			h = strings.TrimPrefix(pool[r.Intn(len(pool))], "*.")
+			if r.Bool() {
+				h = "x.y." + h
+			}
+		}
+	}
 	if v6lit && r.Chance(2, 3) {
 		h = r.Pick("[::1]", "[::1]:80", "[2001:db8::1]:8080", "[2001:DB8::1]", "[", "[::1", "[a.com]:80", "[::1].")
 	}
@@ -227,8 +247,25 @@ func gen(r0 *vh.Rand) string {
 		et = append(et, hostField(e.host)+">"+e.tag+">"+e.product)
 		all = append(all, e.host)
 	}
-	return "t=" + strings.Join(et, "&") + ";v=" + strings.Join(vs, "&") + ";d=" + d + ";h=" + hostField(h) + ";ip=" + ip + ";u=" + lowerOracle(all)
+	op := "t=" + strings.Join(et, "&") + ";v=" + strings.Join(vs, "&") + ";d=" + d + ";h=" + hostField(h) + ";ip=" + ip + ";u=" + lowerOracle(all)
+	if r.Bool() {
+		op += ";ld=1"
+	}
+	if r.Bool() {
+		op += ";pre=1"
+	}
+	return op
 }
+
+// unusual but legal host names (table side and request side)
+var oddHosts = []string{"xn--bcher-kva.example", "XN--BCHER-KVA.EXAMPLE.", "a.b.c.d.e.f.g.h.com", "*.b.c.d.e.f.g.h.com", "*.h.com", "123.45", "1.2.3.4",
+	"1.2.3.4:80", "_dmarc.a.com", "a-.com", "-a.com", "a.com..", "..", "localhost", "LOCALHOST.", "::1", "fe80::1%eth0", "[fe80::1%eth0]:80", "[fe80::1%25eth0]",
+	"[::ffff:1.2.3.4]:443", "a.com:65536", "a.com:0", "a.com:http", " a.com", "a.com ", "a.com:80 ", "*", "*.", "*.*", "**", "*.com.", "COM", "cOm.",
+	strings.Repeat("a", 63) + ".com", strings.Repeat("a", 64) + ".com", strings.Repeat("a.", 127) + "com", "*." + strings.Repeat("a.", 60) + "com",
+	strings.Repeat("x", 255), "a.com:" + strings.Repeat("9", 40)}
+
+// host-tag / product names at the boundaries
+var oddNames = []string{"", "P", "p.1", "p-1_x", "0", "pdef", strings.Repeat("n", 64), "\u4ea7\u54c1", "a b"}
 
 type vipFile struct {
 	Version string
@@ -314,7 +351,35 @@ func exec(op string) string {
 			return "err:load"
 		}
 	}
+	if ld, _ := c1xroute.KV(op, "ld"); ld == "1" {
+		// real path: host_rule.data file -> HostRuleConfLoad (instead of a constructed HostConf)
+		loaded, err := loadHosts(hc)
+		if err != nil {
+			return "err:hostload"
+		}
+		hc = loaded
+	}
 	ht := new(bfe_route.HostTable)
+	if pre, _ := c1xroute.KV(op, "pre"); pre == "1" {
+		// history: the same table first holds a decoy configuration that answers every probe with "stale";
+		// after the second Update nothing of it may be visible
+		old := host_rule_conf.HostConf{Version: "v", DefaultProduct: "stale",
+			HostMap: host_rule_conf.Host2HostTag{"*": "stale"}, HostTagMap: host_rule_conf.HostTag2Product{"stale": "stale"}}
+		for host := range hc.HostMap {
+			old.HostMap[host] = "stale"
+		}
+		old.HostMap[h] = "stale"
+		oldVip := vip_rule_conf.VipConf{Version: "v", VipMap: vip_rule_conf.Vip2Product{}}
+		for k := range vc.VipMap {
+			oldVip.VipMap[k] = "stale"
+		}
+		for _, p := range vipProbes {
+			if b, ok := vh.UnHex(p); ok {
+				oldVip.VipMap[net.IP(b).String()] = "stale"
+			}
+		}
+		ht.Update(old, oldVip, &route_rule_conf.RouteTableConf{})
+	}
 	ht.Update(hc, vc, &route_rule_conf.RouteTableConf{})
 	req := &bfe_basic.Request{Session: &bfe_basic.Session{}, HttpRequest: &bfe_http.Request{Host: h}}
 	if ip != "nil" {
@@ -336,7 +401,71 @@ func exec(op string) string {
 	if req.Route.Error != err {
 		res += "(route.Error differs)"
 	}
-	return res + " tag=" + req.Route.HostTag + " product=" + req.Route.Product
+	// the other two public entry points and their error contract
+	lp := "err"
+	if p, e := ht.LookupProduct(h); e == nil {
+		lp = "ok:" + p
+	} else if e != bfe_route.ErrNoProduct || p != "" {
+		lp = "err:contract"
+	}
+	lv := "-"
+	if req.Session.Vip != nil {
+		lv = "err"
+		if p, e := ht.LookupProductByVip(req.Session.Vip.String()); e == nil {
+			lv = "ok:" + p
+		} else if e != bfe_route.ErrNoProduct || p != "" {
+			lv = "err:contract"
+		}
+	}
+	return res + " tag=" + req.Route.HostTag + " product=" + req.Route.Product + ";lp=" + lp + ";lv=" + lv
+}
+
+type hostFile struct {
+	Version        string
+	DefaultProduct *string
+	Hosts          map[string][]string
+	HostTags       map[string][]string
+}
+
+// loadHosts writes hc as host_rule.data and loads it with the real HostRuleConfLoad.
+func loadHosts(hc host_rule_conf.HostConf) (host_rule_conf.HostConf, error) {
+	hf := hostFile{Version: "v", Hosts: map[string][]string{}, HostTags: map[string][]string{}}
+	var hosts []string
+	for h := range hc.HostMap {
+		hosts = append(hosts, h)
+	}
+	sort.Strings(hosts)
+	for _, h := range hosts {
+		hf.Hosts[hc.HostMap[h]] = append(hf.Hosts[hc.HostMap[h]], h)
+	}
+	var tags []string
+	for t := range hc.HostTagMap {
+		tags = append(tags, t)
+	}
+	sort.Strings(tags)
+	for _, t := range tags {
+		hf.HostTags[hc.HostTagMap[t]] = append(hf.HostTags[hc.HostTagMap[t]], t)
+	}
+	if hc.DefaultProduct != "" {
+		d := hc.DefaultProduct
+		hf.DefaultProduct = &d
+		if _, ok := hf.HostTags[d]; !ok {
+			hf.HostTags[d] = []string{}
+		}
+	}
+	data, err := json.Marshal(hf)
+	if err != nil {
+		return hc, err
+	}
+	f, err := os.CreateTemp("", "verif-c10-host-*.json")
+	if err != nil {
+		return hc, err
+	}
+	name := f.Name()
+	defer os.Remove(name)
+	f.Write(data)
+	f.Close()
+	return host_rule_conf.HostRuleConfLoad(name)
 }
 
 func main() { vh.Main(gen, exec) }
